@@ -255,6 +255,9 @@ func (matrix *SparseReal64Matrix) T() Matrix {
   return matrix.MagicT()
 }
 func (matrix *SparseReal64Matrix) Tip() {
+  if matrix.rowOffset != 0 || matrix.colOffset != 0 || matrix.rows != matrix.rowMax || matrix.cols != matrix.colMax {
+    panic("Tip(): a sub-matrix view cannot be transposed in place")
+  }
   mn := matrix.values.Dim()
   visited := make([]bool, mn)
   k := 0
